@@ -101,11 +101,28 @@ Section Override.
               (get_versions_greater (versions_of (g_pkg g)) (g_ver g))
               (g_ver g) (length (g_vulns g)).
 
-  (* one VersionKey of vkVulns: skipped for level none, patched if the best candidate fixes something *)
-  Definition patch_group (g : group) : option patch :=
+  Definition to_override (q : patch) : pkg * ver := (fst (fst q), snd q).
+
+  Definition pair_eqb (a b : pkg * ver) : bool := N.eqb (fst a) (fst b) && N.eqb (snd a) (snd b).
+
+  (* one VersionKey of vkVulns: skipped for level none; skipped when the best candidate was already
+     requested earlier (issued); patched if the best candidate fixes something *)
+  Definition patch_group (issued : list (pkg * ver)) (g : group) : option patch :=
     if level_eqb (config_get cfg (g_pkg g)) LNone then None
     else let '(best, n) := choose_best g in
-         if Nat.ltb n (length (g_vulns g)) then Some (g_pkg g, g_ver g, best) else None.
+         if existsb (pair_eqb (g_pkg g, best)) issued then None
+         else if Nat.ltb n (length (g_vulns g)) then Some (g_pkg g, g_ver g, best) else None.
+
+  (* the pass over vkVulns; every override requested is remembered at once *)
+  Fixpoint patch_groups (issued : list (pkg * ver)) (gs : list group) : list patch :=
+    match gs with
+    | [] => []
+    | g :: gs' =>
+        match patch_group issued g with
+        | Some q => q :: patch_groups (to_override q :: issued) gs'
+        | None => patch_groups issued gs'
+        end
+    end.
 
   (* ---- building vkVulns from resolved.Vulns *)
   Definition key_eqb (p : pkg) (v : ver) (g : group) : bool := N.eqb (g_pkg g) p && N.eqb (g_ver g) v.
@@ -141,22 +158,15 @@ Section Override.
         else groups_of gs vs'
     end.
 
-  Fixpoint filter_some {A B} (f : A -> option B) (l : list A) : list B :=
-    match l with
-    | [] => []
-    | a :: l' => match f a with Some b => b :: filter_some f l' | None => filter_some f l' end
-    end.
-
-  Definition to_override (q : patch) : pkg * ver := (fst (fst q), snd q).
-
-  (* one pass of the outer loop: None = error, Some [] = loop ends *)
+  (* one pass of the outer loop: None = error, Some [] = loop ends. ovs = every override requested so
+     far (it is both the state of the manifest and the `issued` set) *)
   Definition iteration (ovs : list (pkg * ver)) : option (list patch) :=
     match analyse ovs with
     | None => None
     | Some vulns =>
         match groups_of [] vulns with
         | None => None
-        | Some gs => Some (filter_some patch_group gs)
+        | Some gs => Some (patch_groups ovs gs)
         end
     end.
 
